@@ -35,8 +35,20 @@ fn gen_key(rng: &mut Rng) -> Key {
   match rng.below(7) { 0 => Key::K1(v), 1 => Key::K2(v), 2 => Key::K3(v), 3 => Key::ObjU(v), 4 => Key::ObjDynU32(v), 5 => Key::ObjDynI32(v), _ => Key::ObjDynNew(v) }
 }
 
+thread_local! { static DYN_ROUTE: std::cell::Cell<u32> = const { std::cell::Cell::new(0) }; }
+
+/// A dynamic key, built through each of the four public construction routes in turn (they must all name the same key).
 fn dyn_key(k: Key) -> MapKeyObjToObj {
-  match k { Key::ObjDynU32(v) => MapKeyObjToObj::from(v), Key::ObjDynI32(v) => MapKeyObjToObj::from(v as i32), Key::ObjDynNew(v) => MapKeyObjToObj::from(NewU(v)), _ => unreachable!() }
+  fn via<K: pie::Key>(v: K) -> MapKeyObjToObj {
+    let route = DYN_ROUTE.with(|c| { let r = c.get(); c.set(r.wrapping_add(1)); r % 4 });
+    match route {
+      0 => MapKeyObjToObj::from(v),
+      1 => MapKeyObjToObj::new(Box::new(v) as Box<dyn pie::trait_object::KeyObj>),
+      2 => Box::new(v).into(),
+      _ => (Box::new(v) as Box<dyn pie::trait_object::KeyObj>).into(),
+    }
+  }
+  match k { Key::ObjDynU32(v) => via(v), Key::ObjDynI32(v) => via(v as i32), Key::ObjDynNew(v) => via(NewU(v)), _ => unreachable!() }
 }
 
 fn obj(v: u32) -> Box<dyn MapValueObj> { Box::new(v) }
@@ -293,6 +305,7 @@ fn gen_sop(rng: &mut Rng) -> SOp {
 
 fn one_case(seed: u64, i: u64, n_ops: usize, rep: &mut Report) {
   let mut rng = Rng::derive(seed ^ 0xC14, i);
+  DYN_ROUTE.with(|c| c.set(i as u32));
   let mut pie: Pie<()> = Pie::default();
   let mut model: HashMap<Key, u32> = HashMap::new();
   let mut slots = [Slot::Empty, Slot::Empty];
@@ -352,7 +365,7 @@ pub fn run(tier: &str, seed: u64, replay: Option<u64>) -> Report {
   if let Some(c) = replay { one_case(seed, c, n_ops, &mut total); return total; }
   let parts = util::parallel(n, if tier == "miri" { 1 } else { util::threads() }, 32, Report::new, |i, rep: &mut Report| { one_case(seed, i, n_ops, rep); rep.alarm_total < 20 });
   for p in parts { total.merge(p); }
-  total.rule = "Random sequences of 120 operations per case over one Pie instance: map operations (insert/remove through the resource state's global map; insert, entry().or_insert, get_mut through MapWriter; reads through Resource::read, the global map and MapWriter::get; MapEqualsChecker stamped through all three routes, then mutated, then checked) over seven key kinds with equal bits (K1(u32), K2(u32), K3(i32)->String, MapKeyToObj<u32>, MapKeyObjToObj holding u32 / i32 / a newtype), a build leg (a task reading K1(v), K2(v) and writing K1(v+10) through the Context: correct value, not re-executed when only a same-numbered key of another key type changes, re-executed once when its own key changes, own write read back) and typed-state operations (all 8 ResourceState methods with matching and non-matching state type) on two resource types that both store the same Rust types. Model = one HashMap per key kind / one slot per resource type. non-trivial = case that ended with >= 3 live keys.".into();
+  total.rule = "Random sequences of 120 operations per case over one Pie instance: map operations (insert/remove through the resource state's global map; insert, entry().or_insert, get_mut through MapWriter; reads through Resource::read, the global map and MapWriter::get; MapEqualsChecker stamped through all three routes, then mutated, then checked) over seven key kinds with equal bits (K1(u32), K2(u32), K3(i32)->String, MapKeyToObj<u32>, MapKeyObjToObj holding u32 / i32 / a newtype, every access building the key through the next of its four construction routes: from(k), new(Box<dyn KeyObj>), Box<K>.into(), Box<dyn KeyObj>.into()), a build leg (a task reading K1(v), K2(v) and writing K1(v+10) through the Context: correct value, not re-executed when only a same-numbered key of another key type changes, re-executed once when its own key changes, own write read back) and typed-state operations (all 8 ResourceState methods with matching and non-matching state type) on two resource types that both store the same Rust types. Model = one HashMap per key kind / one slot per resource type. non-trivial = case that ended with >= 3 live keys.".into();
   total.floor("map operations ran", total.get("map_operations") > 100);
   total.floor("typed state operations ran", total.get("typed_state_operations") > 50);
   total.floor("build legs ran", total.get("map_build_legs") > 5);
